@@ -759,6 +759,31 @@ def leaf_test_agreement(prog: Program, rep, rule: str):
     return n
 
 
+def param_spelling_agreement(prog: Program, rep, rule: str):
+    """A scalar class that can be written with a parameter (`re.Pattern[str]` -- the spelling type checkers ask for) is the
+    same annotation as the bare class: both dispatch tables route the two spellings to the same routine."""
+    pe = PredEval(prog)
+    pe.interpret_origin = True
+    pairs = [
+        (TypeArg("re.Pattern"), TypeArg("re.Pattern", True, ("builtins.str",))),
+        (TypeArg("re.Pattern"), TypeArg("re.Pattern", True, ("builtins.bytes",))),
+    ]
+    n = 0
+    for d in ("marshal", "unmarshal"):
+        rows = handlers(prog, d)
+        for bare, sub in pairs:
+            kb, rb = route(prog, pe, rows, bare)
+            ks, rs = route(prog, pe, rows, sub)
+            n += 1
+            key = f"{d}:{sub.label()}"
+            if "unknown" in (kb, ks):
+                rep.undecided(rule, key, rows[0].loc, f"routing of {bare.label()} / {sub.label()} could not be evaluated")
+                continue
+            same = (kb, rb.routine_ref if rb else None) == (ks, rs.routine_ref if rs else None)
+            rep.check(same, rule, key, rows[0].loc, f"{sub.label()} is served like {bare.label()} ({rb.pred_name if rb else 'fallback'})", f"{sub.label()} is not recognised by the row that serves {bare.label()} ({rb.pred_name if rb else 'fallback'}: the predicate applies issubclass to the alias, not to its origin) and falls to {'the structured fallback' if rs is None else rs.pred_name}: marshal raises TypeError (vars() argument must have __dict__), unmarshal cannot create 're.Pattern' instances")
+    return n
+
+
 def route(prog: Program, pe: PredEval, rows: list[Row], arg: TypeArg):
     """First row whose predicate definitely accepts `arg`; None when undecidable before a hit."""
     for r in rows:
